@@ -507,9 +507,13 @@ Definition finish {A} (lis : listeners) (body : step A) (ok : A -> result) : res
   | Stuck => RStuck
   end.
 
-(* The request side (send_message(end=True) / send_request(end=True)) completes without suspension and
-   nothing of the response can precede it, so every body starts from [init] with the whole script
-   pending. *)
+(* The request side completes without suspension and nothing of the response can precede it, so every
+   body starts from [init] with the whole script pending.  An open() body may send and end its request in
+   any legal way -- end=True on the last message or on send_request, a unary message WITHOUT end=True
+   (ended implicitly: _end_done stays False, _send_message_done is True), messages followed by end(), an
+   explicit send_request() first -- every one of them satisfies the `outgoing stream was ended` test of
+   recv_trailing_metadata, and nothing else on the receive path looks at those flags: the outcome does not
+   depend on the way (the driver runs them all against this one model). *)
 Definition outcome (lis : listeners) (k : kind) (bs : list batch) : result :=
   match k with
   | Call _ false =>                         (* reply = await stream.recv_message(); assert reply is not None *)
